@@ -302,3 +302,97 @@ func ruleNAM4(c *Ctx) {
 	}
 	c.Undecided(construct, p.Pos(fn.Pos()), "key construction not recognised")
 }
+
+func init() {
+	register("NAM-5", "a rule's name, description, salience and scopes are written only while it is parsed, copied or rebuilt (and renamed only by removal)", 12, ruleNAM5)
+}
+
+// fieldWriters lists every store to the named fields of pkg.typ in non-test module functions.
+type fieldWrite struct {
+	Fn    *ssa.Function // enclosing source function (closures attributed to their parent)
+	Field *types.Var
+	In    *ssa.Store
+	Base  ssa.Value
+}
+
+func (p *Prog) fieldWriters(pkg, typ string, fields map[string]bool) []fieldWrite {
+	var out []fieldWrite
+	named := p.Named(pkg, typ)
+	if named == nil {
+		return nil
+	}
+	st, _ := named.Underlying().(*types.Struct)
+	own := map[*types.Var]bool{}
+	for i := 0; st != nil && i < st.NumFields(); i++ {
+		if fields[st.Field(i).Name()] {
+			own[st.Field(i)] = true
+		}
+	}
+	for _, fn := range p.ModuleFuncs() {
+		if strings.HasSuffix(p.Pos(fn.Pos()), "_test.go") {
+			continue
+		}
+		root := fn
+		for root.Parent() != nil {
+			root = root.Parent()
+		}
+		for _, b := range fn.Blocks {
+			for _, in := range b.Instrs {
+				if f, base, _ := fieldStore(in); f != nil && own[f] {
+					out = append(out, fieldWrite{root, f, in.(*ssa.Store), base})
+				}
+			}
+		}
+	}
+	return out
+}
+
+// NAM-5 (who-may-write): what a rule is called, how it ranks and what it consists of is fixed when the rule is read.
+func ruleNAM5(c *Ctx) {
+	p := c.P
+	fields := map[string]bool{"RuleName": true, "RuleDescription": true, "Salience": true, "WhenScope": true, "ThenScope": true}
+	type perm struct {
+		fields   map[string]bool
+		ownAlloc bool // only on the entry the function allocates itself
+	}
+	all := map[string]bool{"RuleName": true, "RuleDescription": true, "Salience": true, "WhenScope": true, "ThenScope": true}
+	allowed := map[*ssa.Function]perm{}
+	names := map[*ssa.Function]string{}
+	add := func(fn *ssa.Function, name string, pm perm) {
+		if fn == nil {
+			c.AnchorLost(name)
+			return
+		}
+		allowed[fn] = pm
+		names[fn] = name
+	}
+	add(p.Func("ast", "NewRuleEntry"), "NewRuleEntry", perm{all, true})
+	add(p.Method("ast", "RuleEntry", "Clone"), "RuleEntry.Clone", perm{all, true})
+	add(p.Method("ast", "Catalog", "BuildKnowledgeBase"), "Catalog.BuildKnowledgeBase", perm{all, false})
+	add(p.Method("ast", "RuleEntry", "AcceptSalience"), "RuleEntry.AcceptSalience", perm{map[string]bool{"Salience": true}, false})
+	add(p.Method("ast", "RuleEntry", "AcceptWhenScope"), "RuleEntry.AcceptWhenScope", perm{map[string]bool{"WhenScope": true}, false})
+	add(p.Method("ast", "RuleEntry", "AcceptThenScope"), "RuleEntry.AcceptThenScope", perm{map[string]bool{"ThenScope": true}, false})
+	add(p.Method("antlr", "GruleV3ParserListener", "ExitRuleEntry"), "listener ExitRuleEntry", perm{map[string]bool{"RuleName": true, "RuleDescription": true}, false})
+	add(p.Method("ast", "KnowledgeBase", "RemoveRuleEntry"), "KnowledgeBase.RemoveRuleEntry", perm{map[string]bool{"RuleName": true}, false})
+	add(p.Method("ast", "KnowledgeLibrary", "RemoveRuleEntry"), "KnowledgeLibrary.RemoveRuleEntry", perm{map[string]bool{"RuleName": true}, false})
+	for _, w := range p.fieldWriters("ast", "RuleEntry", fields) {
+		key := fmt.Sprintf("%s / writes RuleEntry.%s", fnName(w.Fn), w.Field.Name())
+		pm, ok := allowed[w.Fn]
+		if w.Fn.Signature.Recv() != nil && isNamed(derefType(w.Fn.Signature.Recv().Type()), fullPkg("antlr"), "GruleV3ParserListener") {
+			// any listener callback: the rule is still being read
+			c.OK(key, p.InstrPos(w.In), "writer is the parse listener")
+			continue
+		}
+		if !ok || !pm.fields[w.Field.Name()] {
+			c.Fail(key, p.InstrPos(w.In), fmt.Sprintf("RuleEntry.%s is rewritten outside parsing / copying / rebuilding (and removal for the name): the rule that runs is no longer the rule that was declared (its rank, its key in the knowledge base, or its body changes behind the author's back)", w.Field.Name()))
+			continue
+		}
+		if pm.ownAlloc {
+			if _, isAlloc := w.Base.(*ssa.Alloc); !isAlloc {
+				c.Fail(key, p.InstrPos(w.In), fmt.Sprintf("%s writes RuleEntry.%s of an entry it did not allocate (the origin of a copy must stay untouched)", names[w.Fn], w.Field.Name()))
+				continue
+			}
+		}
+		c.OK(key, p.InstrPos(w.In), "writer is "+names[w.Fn])
+	}
+}
